@@ -127,7 +127,7 @@ def main(tier):
     rep = common.Report(PID, tier)
     if not lifecycle_mc(rep):
         return rep.finish()
-    n = 40 if tier == "quick" else 1200
+    n = 80 if tier == "quick" else 1500
     outs = common.pmap(_work, [(common.seed(), i, tier == "quick") for i in range(n)], initializer=scratch.enter_scratch, chunksize=2)
     recs, oom = [], 0
     for o in outs:
